@@ -307,7 +307,9 @@ def canonClient (tb : Tables) (cp : String) (relayed : List Bytes) (k : Sink) : 
           let (endS, tr) := acc
           if f.2 != n - 1 || endS != "none" then ("MISPLACED-TRAILER-FRAME", tr)
           else match f.1.2 with
-            | .tok e => (endToken relayed "frame" e.err, e.trailers.foldl (fun acc t => Hdr.addAll acc t.1 t.2) [])
+            | .tok e => (endToken relayed "frame" e.err,
+                (e.trailers.filter (fun t => !t.1.isEmpty && t.1.all isTokenByte)).foldl
+                  (fun acc t => Hdr.addAll acc t.1 (t.2.map fun v => trimSpace (v.map fun c => if c == 0x0A || c == 0x0D then 0x20 else c))) [])
             | .raw payload =>
               match decodeEndFromMessage tb .grpcWeb payload with
               | none => ("MALFORMED-TRAILER-LINE", tr)
@@ -344,9 +346,9 @@ def canonClient (tb : Tables) (cp : String) (relayed : List Bytes) (k : Sink) : 
       let pre := s "Trailer-"
       let ct : Hdr := (hdr.filter (fun e => hasPrefix pre e.1)).map fun e => (e.1.drop pre.length, e.2)
       let ch := hdr.filter fun e => !hasPrefix pre e.1
-      if k.status == some 200 then
+      if hdr.get (s "Content-Type") != s "application/json" then
         match rawOfItems k.items with
-        | some b => { ch := ch, cb := "B:" ++ toHex b, «end» := "body:0:-:0", ct := ct }
+        | some b => { ch := ch, cb := "B:" ++ toHex b, «end» := (if k.status == some 200 then "body:0:-:0" else "none"), ct := ct }
         | none => { ch := ch, cb := "MIXED", «end» := "none", ct := ct }
       else
         match k.items with
